@@ -182,7 +182,6 @@ def run_real(scn, chooser, line_mode=False):
         elif k == "V":
             disp.advance(op[1], op[2])
         elif k == "G":
-            sched.tl.quiet = False
             sched.sync("gate", lambda s, need=op[1]: done_ops[0] >= need)
         elif k == "J":
             me = sched.current()
@@ -206,6 +205,8 @@ def run_real(scn, chooser, line_mode=False):
         sched.run(chooser)
     except Deadlock as e:
         res.deadlock = e.args[0]
+    except RuntimeError as e:  # SchedulerStuck: the code under test never came back to a yield point / never finished
+        res.deadlock = "stuck: " + str(e)
     res.sched = sched
     res.choices = list(sched.choices)
     res.events = list(sched.events)
